@@ -10,8 +10,10 @@
 (*   kids : children of the root, each                                     *)
 (*          [tag, childless, op, tgt, src, nest]                           *)
 (*          op  : operation attribute of roElementAction (None = missing)  *)
-(*          tgt : "absent" | "empty" | "story" | "storyitem"   element_target *)
-(*          src : "absent" | "empty" | "storyID" | "itemID" | "item" | "story" *)
+(*          tgt : "absent" | "empty" | "story" | "storyitem" | "storyitemblank" *)
+(*                (element_target: storyID only / + itemID / + blank itemID) *)
+(*          src : "absent" | "empty" | "storyID" | "itemID" | "itemIDblank" | *)
+(*                "item" | "story"                              element_source *)
 (*          nest: a message tag nested INSIDE this (foreign) element, or None *)
 (* C08: the class is decided only by the top-level message element.        *)
 (***************************************************************************)
@@ -31,8 +33,9 @@ MsgTags == DOMAIN TagClass
 Unknown == "UnknownMosFileType"
 Invalid == "MosInvalidXML"
 
-TargetHasItem(k) == k.tgt = "storyitem"
-SourceHasItem(k) == k.src = "itemID"
+(* decided by the presence of an itemID element, blank or not             *)
+TargetHasItem(k) == k.tgt \in {"storyitem", "storyitemblank"}
+SourceHasItem(k) == k.src \in {"itemID", "itemIDblank"}
 
 (* the library's documented roElementAction table                         *)
 EAClass(k) ==
